@@ -13,6 +13,11 @@ func init() {
 		// the NodePools are ordered by weight before the templates are built from them
 		g.callSeq(grp, "pkg/controllers/provisioning", "Provisioner.NewScheduler", "provisionerNewSchedulerCalls",
 			[]string{"OrderByWeight", "NewScheduler"})
+		// which NodePools become templates at all: the filter in front of OrderByWeight looks at replicas (IsStatic), at the
+		// root condition through ConditionSet.IsTrue (Unknown / missing is not ready) and at the deletionTimestamp; any
+		// other condition predicate used there shows up in the sequence
+		g.callSeq(grp, "pkg/controllers/provisioning", "Provisioner.NewScheduler", "provisionerPoolFilterCalls",
+			[]string{"ListManaged", "IsStatic", "IsTrue", "IsFalse", "IsUnknown", "IsZero", "OrderByWeight"})
 		// lo.Slice(OrderByPrice(..), 0, MaxInstanceTypes)
 		g.callSeq(grp, "pkg/controllers/provisioning/scheduling", "NodeClaimTemplate.ToNodeClaim", "toNodeClaimCalls",
 			[]string{"Slice", "OrderByPrice"})
